@@ -19,8 +19,21 @@ from . import prove as P
 BIN = os.path.join(core.WORK, "bin")
 
 
+_BUILT = {}
+
+
 def build_native(name, sources, extra_flags=(), timeout=900):
-    """Compile a native driver against the current /repo tree into .work/bin. Returns path or raises."""
+    """Compile a native driver against the current /repo tree into .work/bin. Returns path or raises.
+    Built once per run (process): the tree does not change while one check is running."""
+    key = (name, tuple(sources), tuple(extra_flags))
+    if key in _BUILT and os.path.exists(_BUILT[key]):
+        return _BUILT[key]
+    out = _build_native(name, sources, extra_flags, timeout)
+    _BUILT[key] = out
+    return out
+
+
+def _build_native(name, sources, extra_flags=(), timeout=900):
     os.makedirs(BIN, exist_ok=True)
     out = os.path.join(BIN, name)
     base = ["g++", "-std=c++17", "-O0", "-g0", "-w", "-DOPENTELEMETRY_ABI_VERSION_NO=1",
